@@ -22,7 +22,11 @@ RULE = ("states = (program, unit id, transformation) pairs; transitions = evalua
         "oracle = equality of the two results of each related pair (no hand-written expectation), an exception for "
         "an omitted declared field, and non-constancy across ids / salts")  # fmt: skip
 
-IDS = list(range(40)) + [f"u{i}@x.org" for i in range(16)] + ["", "é", 1.5, None, True, "1", 1, -1]
+from ..enum import collide as _collide  # noqa: E402
+
+# pairs of ids whose hash keys ('' / 'salt1' / 's' / 'k' + id) collide under crc32 and have equal length, adjacent in the list
+IDS = list(range(40)) + [f"u{i}@x.org" for i in range(16)] + ["", "é", 1.5, None, True, "1", 1, -1] + \
+    [x for _pre, a, b in _collide.crc32_id_pairs(prefixes=("", "salt1", "s", "k"), n=3) for x in (a, b)]
 MULTI = (("A", "1"), ("B", "2"), ("C", "3"))
 
 
@@ -88,6 +92,21 @@ def check_base(acc, tag, ast, tier):
             e.update(dict(zip(free, asg)))
             envs.append(e)
     base = results(ev, envs)
+    # the group is a function of salt, splitter values and routed branch ONLY (not of what was evaluated before):
+    # compare with the reference scheme, then once more in reverse order
+    from .. import oracle
+
+    for order in (envs, envs[::-1]):
+        for e in order:
+            try:
+                exp = oracle.expected(ast, e)
+            except TypeError:
+                continue
+            acc.add("evaluations")
+            why = oracle.agree(impl.call(ev, e), exp)
+            if why:
+                acc.violation({"kind": "dep:history", "sub": "eval", "text": text, "env": enc(e), "why": "result is not the function of salt / splitter values / branch that the scheme defines: " + why})
+                break
     groups = {r[1] for r in base if r[0] == "ok"}
     acc.outcomes.update(str(g) for g in groups)
     # (1) extra keyword arguments
